@@ -91,31 +91,39 @@ Definition allow_ambient_gp : list (string * eff) := [
    PYTHONHASHSEED (int / float / tuples of float) or whose order cannot reach a suggestion or decision *)
 Definition allow_hash_common : list (string * eff) := [
   (* `for key in mandatory: assert key in options`: only selects which assertion message is raised *)
-  ("syne_tune.optimizer.schedulers.searchers.utils.default_arguments.check_and_merge_defaults/1", HashOrderIter)
+  ("syne_tune.optimizer.schedulers.searchers.utils.default_arguments.check_and_merge_defaults/1 for-loop over a set", HashOrderIter)
 ].
 Definition allow_hash_stochastic : list (string * eff) :=
   (* `for pos in self._rc_returned_pos`: set of int positions (hash(int) is not randomised) *)
-  ("syne_tune.optimizer.schedulers.searchers.searcher_base.StochasticAndFilterDuplicatesSearcher.get_config/1", HashOrderIter)
+  ("syne_tune.optimizer.schedulers.searchers.searcher_base.StochasticAndFilterDuplicatesSearcher.get_config/1 for-loop over a set left early", HashOrderIter)
   :: allow_hash_common.
+(* PASHA's epsilon estimate walks over all pairs of a SET of trial-id strings (itertools.combinations).  Order-free
+   provided a pair is identified independently of the order of its members and only |difference| values enter
+   the percentile; this holds after the fix proposed in findings/C11-pasha-epsilon-ordered-pairs.diff (before it,
+   seen_pairs held ORDERED pairs: finding, reproduced by corpus/C11/pasha-epsilon-ordered-pairs.json).  A bounded
+   walk (islice, break) over the pairs is a different site name and is NOT covered. *)
+Definition allow_hash_pasha : list (string * eff) := [
+  ("syne_tune.optimizer.schedulers.hyperband_pasha.PASHARungSystem._update_epsilon/1 set passed to itertools.combinations", HashOrderIter)
+].
 Definition allow_hash_grid : list (string * eff) :=
   (* `list(set(_hpr_points))`: grid values of Float/Integer ranges (float / int elements) *)
-  ("syne_tune.optimizer.schedulers.searchers.random_grid_searcher.GridSearcher._generate_all_candidates_on_grid/1", HashOrderIter)
+  ("syne_tune.optimizer.schedulers.searchers.random_grid_searcher.GridSearcher._generate_all_candidates_on_grid/1 set passed to list", HashOrderIter)
   :: allow_hash_common.
 Definition allow_hash_gp : list (string * eff) := [
   (* set of trial-id strings, only used for `assert trial_id in config_for_trial` *)
-  ("syne_tune.optimizer.schedulers.searchers.bayesopt.datatypes.tuning_job_state.TuningJobState._check_trial_ids/1", HashOrderIter);
+  ("syne_tune.optimizer.schedulers.searchers.bayesopt.datatypes.tuning_job_state.TuningJobState._check_trial_ids/1 for-loop over a set", HashOrderIter);
   (* list of configs in set order of trial-id STRINGS; its only consumer ExclusionListFromState turns it into a
      set of match strings (order-free).  Hash-seed dependent order, harmless consumer: fresh-process twins under
      different PYTHONHASHSEED in the driver validate this *)
-  ("syne_tune.optimizer.schedulers.searchers.bayesopt.datatypes.tuning_job_state.TuningJobState.all_configurations/1", HashOrderIter);
+  ("syne_tune.optimizer.schedulers.searchers.bayesopt.datatypes.tuning_job_state.TuningJobState.all_configurations/1 comprehension over a set", HashOrderIter);
   (* set of integer resource levels *)
-  ("syne_tune.optimizer.schedulers.searchers.bayesopt.gpautograd.independent.posterior_state.IndependentGPPerResourcePosteriorState._split_features/1", HashOrderIter);
+  ("syne_tune.optimizer.schedulers.searchers.bayesopt.gpautograd.independent.posterior_state.IndependentGPPerResourcePosteriorState._split_features/1 for-loop over a set", HashOrderIter);
   (* set of tuples of floats *)
-  ("syne_tune.optimizer.schedulers.searchers.bayesopt.gpautograd.kernel.freeze_thaw.FreezeThawKernelFunction.forward/1", HashOrderIter);
+  ("syne_tune.optimizer.schedulers.searchers.bayesopt.gpautograd.kernel.freeze_thaw.FreezeThawKernelFunction.forward/2 order-truncating: zip ; set passed to zip", HashOrderIter);
   (* tuple({"acq_func"}): singleton *)
-  ("syne_tune.optimizer.schedulers.searchers.gp_searcher_factory._common_defaults/1", HashOrderIter);
-  ("syne_tune.optimizer.schedulers.searchers.searcher_base.StochasticAndFilterDuplicatesSearcher.get_config/1", HashOrderIter);
-  ("syne_tune.optimizer.schedulers.searchers.utils.default_arguments.check_and_merge_defaults/1", HashOrderIter)
+  ("syne_tune.optimizer.schedulers.searchers.gp_searcher_factory._common_defaults/1 set passed to tuple", HashOrderIter);
+  ("syne_tune.optimizer.schedulers.searchers.searcher_base.StochasticAndFilterDuplicatesSearcher.get_config/1 for-loop over a set left early", HashOrderIter);
+  ("syne_tune.optimizer.schedulers.searchers.utils.default_arguments.check_and_merge_defaults/1 for-loop over a set", HashOrderIter)
 ].
 
 (* the exception the property itself grants: process-global block-name counters of the GP parameter blocks *)
@@ -176,7 +184,7 @@ Theorem c11_no_ambient_rng_hyperband_random :
 Proof. by_check. Qed.
 Print Assumptions c11_no_ambient_rng_hyperband_random.
 Theorem c11_no_hash_order_hyperband_random :
-  NoReachableEffect edges effs off_hyperband_random roots_hyperband_random hash_order allow_hash_stochastic.
+  NoReachableEffect edges effs off_hyperband_random roots_hyperband_random hash_order (allow_hash_pasha ++ allow_hash_stochastic).
 Proof. by_check. Qed.
 Print Assumptions c11_no_hash_order_hyperband_random.
 Theorem c11_instances_disjoint_hyperband_random :
@@ -259,7 +267,7 @@ Theorem c11_no_ambient_rng_hyperband_bayesopt :
 Proof. by_check. Qed.
 Print Assumptions c11_no_ambient_rng_hyperband_bayesopt.
 Theorem c11_no_hash_order_hyperband_bayesopt :
-  NoReachableEffect edges effs off_hyperband_bayesopt roots_hyperband_bayesopt hash_order allow_hash_gp.
+  NoReachableEffect edges effs off_hyperband_bayesopt roots_hyperband_bayesopt hash_order (allow_hash_pasha ++ allow_hash_gp).
 Proof. by_check. Qed.
 Print Assumptions c11_no_hash_order_hyperband_bayesopt.
 Theorem c11_shared_state_only_block_names_hyperband_bayesopt :
@@ -272,7 +280,7 @@ Theorem c11_no_ambient_rng_hyperband_hypertune :
 Proof. by_check. Qed.
 Print Assumptions c11_no_ambient_rng_hyperband_hypertune.
 Theorem c11_no_hash_order_hyperband_hypertune :
-  NoReachableEffect edges effs off_hyperband_hypertune roots_hyperband_hypertune hash_order allow_hash_gp.
+  NoReachableEffect edges effs off_hyperband_hypertune roots_hyperband_hypertune hash_order (allow_hash_pasha ++ allow_hash_gp).
 Proof. by_check. Qed.
 Print Assumptions c11_no_hash_order_hyperband_hypertune.
 Theorem c11_shared_state_only_block_names_hyperband_hypertune :
@@ -285,7 +293,7 @@ Theorem c11_no_ambient_rng_hyperband_dyhpo :
 Proof. by_check. Qed.
 Print Assumptions c11_no_ambient_rng_hyperband_dyhpo.
 Theorem c11_no_hash_order_hyperband_dyhpo :
-  NoReachableEffect edges effs off_hyperband_dyhpo roots_hyperband_dyhpo hash_order allow_hash_gp.
+  NoReachableEffect edges effs off_hyperband_dyhpo roots_hyperband_dyhpo hash_order (allow_hash_pasha ++ allow_hash_gp).
 Proof. by_check. Qed.
 Print Assumptions c11_no_hash_order_hyperband_dyhpo.
 
@@ -330,11 +338,11 @@ Definition allow_clock_sim : list (string * eff) := [
   ("syne_tune.util.RegularCallback.__call__/2", WallClock)
 ].
 Definition allow_hash_sim : list (string * eff) := [
-  ("syne_tune.backend.local_backend.LocalBackend._get_busy_trial_ids/1", HashOrderIter);               (* int trial ids *)
-  ("syne_tune.backend.simulator_backend.simulator_backend.SimulatorBackend.busy_trial_ids/1", HashOrderIter);  (* int trial ids *)
-  ("syne_tune.tuner.Tuner._process_new_results/1", HashOrderIter);                                      (* int trial ids *)
-  ("syne_tune.optimizer.schedulers.searchers.searcher_base.StochasticAndFilterDuplicatesSearcher.get_config/1", HashOrderIter);
-  ("syne_tune.optimizer.schedulers.searchers.utils.default_arguments.check_and_merge_defaults/1", HashOrderIter)
+  ("syne_tune.backend.local_backend.LocalBackend._get_busy_trial_ids/1 for-loop over a set", HashOrderIter);               (* int trial ids *)
+  ("syne_tune.backend.simulator_backend.simulator_backend.SimulatorBackend.busy_trial_ids/1 comprehension over a set", HashOrderIter);  (* int trial ids *)
+  ("syne_tune.tuner.Tuner._process_new_results/1 set passed to list", HashOrderIter);                                      (* int trial ids *)
+  ("syne_tune.optimizer.schedulers.searchers.searcher_base.StochasticAndFilterDuplicatesSearcher.get_config/1 for-loop over a set left early", HashOrderIter);
+  ("syne_tune.optimizer.schedulers.searchers.utils.default_arguments.check_and_merge_defaults/1 for-loop over a set", HashOrderIter)
 ].
 
 Theorem c11_sim_experiment_no_ambient_rng :
@@ -346,7 +354,7 @@ Theorem c11_sim_experiment_clock_sites :
 Proof. by_check. Qed.
 Print Assumptions c11_sim_experiment_clock_sites.
 Theorem c11_sim_experiment_no_hash_order :
-  NoReachableEffect edges effs off_sim_experiment roots_sim_experiment hash_order allow_hash_sim.
+  NoReachableEffect edges effs off_sim_experiment roots_sim_experiment hash_order (allow_hash_pasha ++ allow_hash_sim).
 Proof. by_check. Qed.
 Print Assumptions c11_sim_experiment_no_hash_order.
 
